@@ -130,7 +130,7 @@ def run_check(tier, seed):
                 # The reopening session sometimes runs WITHOUT the burst buffer: a file written through it is an ordinary file
                 p = apigen.gen_meta_program(rng, 'c12_%d.nc' % k, nprocs, hints=hints, ohints=(hints if rng.chance(2, 3) else '-'), flush_each=True, cancel_rec=False)
             elif k % 5 == 4:
-                p = apigen.gen_mix_program(rng, 'c12_%d.nc' % k, nprocs, hints=hints, focus=[None, 'burst', 'recvarn'][(k // 5) % 3])    # many varn segments / several nonblocking requests per wait
+                p = apigen.gen_mix_program(rng, 'c12_%d.nc' % k, nprocs, hints=hints, focus=[None, 'burst', 'recvarn'][(k // 5) % 3], cancel_rec=False)    # many varn segments / several nonblocking requests per wait
             elif k % 5 == 2:
                 p = apigen.gen_nb_program(rng, 'c12_%d.nc' % k, nprocs, hints=hints)     # nonblocking requests through the log
             else:
